@@ -293,6 +293,7 @@ type matcherSpec struct {
 	codesSet  bool     // true: codes is a (possibly empty) non-nil list
 	pats      []string // Content-Type patterns
 	patsSet   bool
+	hdrs      map[string][]string // general form: raw key ↦ nil (absent) | empty (present) | patterns
 }
 
 var (
@@ -334,7 +335,9 @@ func buildHandler(enc, prefer []string, min int, m matcherSpec, mkey string, obs
 			}
 			mm["status_code"] = m.codes
 		}
-		if m.patsSet {
+		if m.hdrs != nil {
+			mm["headers"] = m.hdrs
+		} else if m.patsSet {
 			if m.pats == nil {
 				m.pats = []string{}
 			}
